@@ -154,18 +154,19 @@ def Spec.firstMarker {τ : Type} (name : String) (cols : List (Col τ)) : Option
 
 /-! ### the table's partition key from the schema rows (metadata.go compileV2Metadata) -/
 
-/-- `componentColumnCountOfType`: the largest position + 1 (rows: name, position of the partition-key columns) -/
-def pkCount : List (String × Nat) → Nat
+/-- `componentColumnCountOfType`: the largest position + 1 (rows: name, position of the partition-key columns).
+    Generic in the type `α` of column names (`String` for op rkm, byte strings for op rkn). -/
+def pkCount {α : Type} : List (α × Nat) → Nat
   | [] => 0
   | (_, p) :: r => max (p + 1) (pkCount r)
 
 /-- `table.PartitionKey[column.ComponentIndex] = column` for every partition-key column row, in arrival order -/
-def place : List (String × Nat) → List (Option String) → List (Option String)
+def place {α : Type} : List (α × Nat) → List (Option α) → List (Option α)
   | [], a => a
   | (n, p) :: r, a => place r (a.set p (some n))
 
 /-- `TableMetadata.PartitionKey` (names; `none` = a nil entry) -/
-def schemaPartitionKey (pk : List (String × Nat)) : List (Option String) :=
+def schemaPartitionKey {α : Type} (pk : List (α × Nat)) : List (Option α) :=
   place pk (List.replicate (pkCount pk) none)
 
 /-! ### token ring order (token.go `newTokenRing`: parse every token string, `sort.Sort`) -/
